@@ -1,0 +1,39 @@
+//go:build verif
+
+package client
+
+// Contracts for /verif (contract-based deductive verification of this package).
+// Comment-only file: only the lines starting with "//@" are read, by /verif/bin/govc.
+
+// A5: logging has no effect on verified state
+//@ func (*Broker).info trusted
+//@   modifies nothing
+//@ func (*Broker).error trusted
+//@   modifies nothing
+//@ func (*Broker).shouldStopNow trusted
+//@   modifies nothing
+//@ func (*Broker).shouldStop trusted
+//@   modifies nothing
+//@ func (*Broker).applyErrorBackoff trusted
+//@   modifies nothing
+//@ func (*Broker).stat trusted
+//@   modifies nothing
+//@ func sendCh trusted
+//@   modifies nothing
+
+// ---------------------------------------------------------------- release of source files (C02)
+
+//@ func (*Broker).getTag
+//@   on return assert tag-of-this-file: result != nil ==> called(Tagger) && lastarg(Tagger, 0) == file.GetName() && has(broker.tagMap, lastret(Tagger, 0)) && result == broker.tagMap[lastret(Tagger, 0)]
+//@   modifies nothing
+
+//@ func (*Broker).canDelete
+//@   on return assert policy: result ==> broker.cleanSome && called((*Broker).getTag) && lastarg((*Broker).getTag, 1) == file && tag != nil && tag == lastret((*Broker).getTag, 0) && tag.Delete && (tag.DeleteDelay == 0 || clock - file.GetTime() > tag.DeleteDelay)
+//@   modifies clock
+
+// the whileLocked callback of Cache.Done is verified in the context of finish
+//@ func (*Broker).finish
+//@   before call sts.FileCache.Done assert release-needs-positive: (file.Waiting() || file.Received()) && arg1 == file.GetName()
+//@   before call sendCh assert negative-is-retried: !(file.Waiting() || file.Received()) && arg1 == broker.chRetry
+//@   before call sts.FileSource.Remove assert remove-needs-positive-and-policy: (file.Waiting() || file.Received()) && called((*Broker).canDelete) && lastret((*Broker).canDelete, 0) && lastarg((*Broker).canDelete, 1) == arg1
+//@   on return assert one-of-both: called(sts.FileCache.Done) != called(sendCh)
